@@ -270,6 +270,7 @@ fn gen_op(rng: &mut Rng, sc: &ThreadScenario, pal: &[u8], depth: usize) -> Op {
             table: gen_table(rng, np),
             stop_after: if rng.chance(1, 4) { Some(rng.range(1, 3)) } else { None },
             nested: if rng.chance(1, 3) { Some(rng.below(sc.fixed_hays.len())) } else { None },
+            panic_at: if rng.chance(1, 8) { Some(rng.below(3)) } else { None },
         },
         6 => {
             let s = if rng.chance(4, 5) { 0 } else { s };
@@ -402,7 +403,7 @@ pub fn gen_race(seed: u64, idx: u64) -> ThreadScenario {
                 2 => Op::WithClone(Box::new(Op::Iter { kind: IterKind::Find, q: q(h), limit: None })),
                 3 => Op::IsMatch(q(h)),
                 4 if !packed => Op::ReplaceAll { q: q(h), table: patterns.iter().map(|_| b"#".to_vec()).collect() },
-                5 if !packed => Op::ReplaceAllWith { q: q(h), table: patterns.iter().map(|_| b"<>".to_vec()).collect(), stop_after: None, nested: None },
+                5 if !packed => Op::ReplaceAllWith { q: q(h), table: patterns.iter().map(|_| b"<>".to_vec()).collect(), stop_after: None, nested: None, panic_at: None },
                 _ => Op::Iter { kind: IterKind::Find, q: q(h), limit: None },
             });
         }
